@@ -162,8 +162,15 @@ def conflicts(fa, fb):
     return False
 
 
-def try_import(doc):
+def try_import(doc, relaxed_first=False):
     text = json.dumps(doc)          # JSON is YAML: a cheap, exact serialisation of the faulty document
+    if relaxed_first:
+        # the same text was imported before with the schema check switched off (whatever that import did, it must
+        # not change what the default import says)
+        try:
+            import_from_yaml(text, ignore_schema=True)
+        except Exception:
+            pass
     try:
         sc = import_from_yaml(text)
         return 'accepted', sc
@@ -254,6 +261,12 @@ def work(task):
             res['evaluations'] += 1
             res['outcomes'][out] += 1
             labels = [f[0] for f in fs]
+            if r == 1:
+                again, _ = try_import(d, relaxed_first=True)
+                res['evaluations'] += 1
+                if again != out:
+                    viol(labels, 'unstable', 'document with fault(s) %s: %s by default, but %s once the same text has '
+                         'been imported with ignore_schema=True' % (labels, out, again))
             if out == 'accepted':
                 viol(labels, 'accepted', 'document with fault(s) %s is accepted' % labels)
             elif out != 'StatechartError':
